@@ -12,6 +12,9 @@ package props
 // debugger itself aborts the evaluation at its k-th stop, like the debugger command kill). For some probes every pair
 // (k1,k2) is run as two consecutive aborted evaluations in the same interpreter.
 //
+// A second family of probes ("named", c12_named.go) renders the constructs with top-level functions of every signature
+// shape, so that the frames of the aborted calls are eligible for recycling.
+//
 // Oracle after the abort(s): (a) the hidden per-goroutine state (fast.VerifRunInfo) equals the idle state recorded in
 // the same interpreter before the probe, and the pool of recycled frames is consistent; (b) the battery of
 // evaluations of c12_util.go gives exactly the results it gives on an interpreter that never ran the probe.
@@ -72,8 +75,19 @@ var c12Constructs = []c12Cons{
 }
 
 type c12Probe struct {
-	Path []string
-	Src  string
+	Path   []string
+	Src    string
+	Style  string   // "" = nested function literals (closures) | "named" = top-level functions, see c12_named.go
+	Shapes []string // named style: signature shape of the functions of each level
+	Decls  []string // named style: declarations, one evaluation each, made before the probe runs
+}
+
+func (p c12Probe) String() string {
+	s := strings.Join(p.Path, ">")
+	if p.Style != "" {
+		s = p.Style + ":" + s + "/" + strings.Join(p.Shapes, ">")
+	}
+	return s
 }
 
 func c12Build(path []int) c12Probe {
@@ -127,9 +141,24 @@ func c12Probes(depth int) []c12Probe {
 
 type c12Case struct {
 	Path   []string `json:"probe"`
-	Mode   string   `json:"mode"`   // plain | debug | kill
-	Faults []int    `json:"faults"` // k of each consecutive aborted evaluation (0 = no fault)
+	Style  string   `json:"style,omitempty"`  // "" | "named"
+	Shapes []string `json:"shapes,omitempty"` // named style: one signature shape per level
+	Mode   string   `json:"mode"`             // plain | debug | kill
+	Faults []int    `json:"faults"`           // k of each consecutive aborted evaluation (0 = no fault)
 	Src    string   `json:"source,omitempty"`
+	Decls  []string `json:"declarations,omitempty"`
+}
+
+func c12CaseOf(p c12Probe, mode string, faults []int) c12Case {
+	return c12Case{Path: p.Path, Style: p.Style, Shapes: p.Shapes, Mode: mode, Faults: faults}
+}
+
+// c12ProbeOfCase rebuilds the probe program of a case.
+func c12ProbeOfCase(cas c12Case) (c12Probe, bool) {
+	if cas.Style == "named" {
+		return c12NamedProbeByNames(cas.Path, cas.Shapes)
+	}
+	return c12ProbeByNames(cas.Path)
 }
 
 type c12Outcome struct {
@@ -183,12 +212,17 @@ func (d *c12KillStub) Breakpoint(ir *fast.Interp, env *fast.Env) fast.DebugOp { 
 
 // c12Exec runs one case on a fresh interpreter.
 func c12Exec(cas c12Case, withBattery bool) c12Outcome {
-	p, ok := c12ProbeByNames(cas.Path)
+	p, ok := c12ProbeOfCase(cas)
 	if !ok {
-		panic("C12: unknown probe " + strings.Join(cas.Path, ">"))
+		panic("C12: unknown probe " + strings.Join(cas.Path, ">") + " " + strings.Join(cas.Shapes, ">"))
 	}
 	w, _, idle := c12Setup(cas.Mode)
 	ir := w.ir
+	if len(cas.Faults) != 0 {
+		for _, d := range p.Decls {
+			ir.Eval(d) // completed evaluations: the idle state is not changed by them
+		}
+	}
 	var out c12Outcome
 	out.BadWhen = -1
 	for ei, k := range cas.Faults {
@@ -259,6 +293,9 @@ func c12Ref(mode string) []string {
 func c12Check(c *core.Ctx, cas c12Case, ref []string) c12Outcome {
 	out := c12Exec(cas, true)
 	probe := strings.Join(cas.Path, ">")
+	if cas.Style != "" {
+		probe = cas.Style + ":" + probe + "/" + strings.Join(cas.Shapes, ">")
+	}
 	report := func(sig, what string) {
 		// reproduce on fresh interpreters before reporting
 		for i := 0; i < 4; i++ {
@@ -269,8 +306,9 @@ func c12Check(c *core.Ctx, cas c12Case, ref []string) c12Outcome {
 			}
 		}
 		cc := cas
-		if p, ok := c12ProbeByNames(cas.Path); ok {
+		if p, ok := c12ProbeOfCase(cas); ok {
 			cc.Src = p.Src
+			cc.Decls = p.Decls
 		}
 		c.Violation(sig, what, cc)
 	}
@@ -300,9 +338,15 @@ func c12Run(c *core.Ctx) {
 		"panic inside a deferred call while another panic is in flight, interpreted->compiled->interpreted callback}, hook call at every statement boundary; " +
 		"one run per (probe, mode, k) with k = 1..N dynamic hook calls (mode kill: k = 1..N debugger stops) on a fresh interpreter, plus all pairs (k1,k2) of two consecutive " +
 		"aborted evaluations for selected probes; after the abort: hidden-state invariant + battery of " + fmt.Sprint(len(c12Battery)) + " evaluations compared with a never-faulted interpreter. " +
+		"second family, named probes: the constructs {call, deferred compiled function + deferred top-level function, loop body with a block-local, recover-then-rethrow, panic inside a deferred call, callback} rendered with "+
+		"top-level functions declared by earlier evaluations (no frame is captured by a closure: frames are eligible for recycling; no deferred callee is a closure of the deferring function), "+
+		fmt.Sprint(len(c12Shapes))+" signature shapes {func(), func(int), func() int, func(int) int, func(string) bool, func(int,string), slice parameter, 3 parameters + 2 results, variadic, interface parameter + named interface result, named types, value method, pointer method, pointer method with implicit address}: "+
+		"depth 1 = every construct x every shape in the three modes, depth 2 = every pair of constructs x pairs of 4 reduced shapes (quick: (s,s) and (s,next s); thorough: every shape outside x reduced inside), thorough depth 3 with equal shapes; "+
+		"the battery starts by taking every frame of the pool for a non-panicking function whose deferred call recovers. "+
 		"non-trivial = distinct (probe, mode, fault points) whose evaluation was really aborted by a panic escaping Eval")
 	c.Assume("probe programs only touch locals, so the aborted evaluation leaves no legitimate side effect behind",
-		"Run.PanicFun/Run.Panic (stale after an escaped panic), Run.Interrupt and the pool fill level are recorded but not required to be restored: no later evaluation can observe them")
+		"Run.PanicFun/Run.Panic (stale after an escaped panic), Run.Interrupt and the pool fill level are recorded but not required to be restored: no later evaluation can observe them "+
+			"as long as the frame registered in Run.PanicFun is never handed out again, which is checked (PoolLive = no pooled frame is reachable from PanicFun/DeferOfFun/CurrEnv; battery items pool-drain-*)")
 
 	refs := map[string][]string{}
 	for _, m := range []string{"plain", "debug", "kill"} {
@@ -315,16 +359,37 @@ func c12Run(c *core.Ctx) {
 	}
 	var jobs []job
 	maxDepth := c.Pick(3, 4)
-	for d := 1; d <= maxDepth; d++ {
+	literal := 0
+	addLiteral := func(d int) {
 		for _, p := range c12Probes(d) {
 			modes := []string{"plain"}
 			if d <= c.Pick(2, 3) {
 				modes = []string{"plain", "debug", "kill"}
 			}
 			jobs = append(jobs, job{p, modes})
+			literal++
 		}
 	}
+	for d := 1; d <= maxDepth && d <= 3; d++ {
+		addLiteral(d)
+	}
+	// named probes (c12_named.go): top-level functions of every signature shape, frames eligible for recycling
+	for d := 1; d <= c.Pick(2, 3); d++ {
+		for _, p := range c12NamedProbes(d, c.Thorough()) {
+			modes := []string{"plain"}
+			if d == 1 {
+				modes = []string{"plain", "debug", "kill"}
+			}
+			jobs = append(jobs, job{p, modes})
+		}
+	}
+	// the deepest literal nestings last: they are the first to go if the internal deadline is reached
+	for d := 4; d <= maxDepth; d++ {
+		addLiteral(d)
+	}
 	c.Set("probes", len(jobs))
+	c.Set("probes_literal", literal)
+	c.Set("probes_named", len(jobs)-literal)
 	outcomes := map[string]bool{}
 	idx := 0
 	for _, j := range jobs {
@@ -337,21 +402,24 @@ func c12Run(c *core.Ctx) {
 		}
 		for _, mode := range j.modes {
 			// control run: no fault
-			ctl := c12Check(c, c12Case{Path: j.p.Path, Mode: mode, Faults: []int{0}}, refs[mode])
+			ctl := c12Check(c, c12CaseOf(j.p, mode, []int{0}), refs[mode])
 			c.Eval(1)
 			c.Count("runs_"+mode, 1)
 			if ctl.Aborted[0] {
-				panic(fmt.Sprintf("C12 harness: probe %v mode %s aborts without a fault: %v", j.p.Path, mode, ctl.Panics))
+				panic(fmt.Sprintf("C12 harness: probe %v mode %s aborts without a fault: %v", j.p, mode, ctl.Panics))
 			}
 			c.Count("hook_calls_control_total", ctl.N)
 			for k := 1; k <= ctl.N; k++ {
-				cas := c12Case{Path: j.p.Path, Mode: mode, Faults: []int{k}}
+				cas := c12CaseOf(j.p, mode, []int{k})
 				out := c12Check(c, cas, refs[mode])
 				c.Eval(1)
 				c.Count("runs_"+mode, 1)
+				if j.p.Style != "" {
+					c.Count("runs_"+j.p.Style, 1)
+				}
 				c.Count("battery_evaluations", len(c12Battery))
 				if out.Aborted[0] {
-					c.Nontrivial(fmt.Sprintf("%v|%s|%d", j.p.Path, mode, k))
+					c.Nontrivial(fmt.Sprintf("%v|%s|%d", j.p, mode, k))
 					c.Count("aborted", 1)
 				} else {
 					c.Count("fault_swallowed", 1)
@@ -363,7 +431,7 @@ func c12Run(c *core.Ctx) {
 				}
 				outcomes[mode+" panic="+pv+" "+out.Loose] = true
 				if c.WantSample() && k == ctl.N/2+1 && len(j.p.Path) >= 2 {
-					c.Sample(map[string]interface{}{"probe": strings.Join(j.p.Path, ">"), "mode": mode, "N": ctl.N, "k": k, "escaped": out.Panics[0], "loose_state": out.Loose})
+					c.Sample(map[string]interface{}{"probe": j.p.String(), "mode": mode, "N": ctl.N, "k": k, "escaped": out.Panics[0], "loose_state": out.Loose})
 				}
 			}
 		}
@@ -376,12 +444,17 @@ func c12Run(c *core.Ctx) {
 			p, _ := c12ProbeByNames(names)
 			pairProbes = append(pairProbes, p)
 		}
+		for _, ps := range [][2]string{{"defer", "slice"}, {"panicdefer", "f1r1"}, {"rethrow", "method"}} {
+			p, _ := c12NamedProbeByNames([]string{ps[0]}, []string{ps[1]})
+			pairProbes = append(pairProbes, p)
+		}
 	} else {
 		pairProbes = append(c12Probes(1), c12Probes(2)...)
+		pairProbes = append(pairProbes, c12NamedProbes(1, true)...)
 	}
 	pairs := 0
 	for _, p := range pairProbes {
-		ctl := c12Exec(c12Case{Path: p.Path, Mode: "plain", Faults: []int{0}}, false)
+		ctl := c12Exec(c12CaseOf(p, "plain", []int{0}), false)
 		for k1 := 1; k1 <= ctl.N; k1++ {
 			idx++
 			if !c.Mine(idx) {
@@ -391,11 +464,11 @@ func c12Run(c *core.Ctx) {
 				break
 			}
 			for k2 := 1; k2 <= ctl.N; k2++ {
-				out := c12Check(c, c12Case{Path: p.Path, Mode: "plain", Faults: []int{k1, k2}}, refs["plain"])
+				out := c12Check(c, c12CaseOf(p, "plain", []int{k1, k2}), refs["plain"])
 				c.Eval(1)
 				pairs++
 				if out.Aborted[0] && out.Aborted[1] {
-					c.Nontrivial(fmt.Sprintf("%v|pair|%d,%d", p.Path, k1, k2))
+					c.Nontrivial(fmt.Sprintf("%v|pair|%d,%d", p, k1, k2))
 				}
 			}
 		}
